@@ -255,10 +255,10 @@ func c07Read(c *Ctx) {
 		n = mm.Choose("n", 4)
 		cur.n = n
 		s := fold.SymOfType("u", un).(fold.Struct)
-		s.F[L.utf8Source] = fold.Iface{V: fold.Sym{Name: "Source", NonNil: true}}
-		s.F[L.utf8State] = fold.K(36)
-		s.F[L.utf8Codep] = fold.Int{Lo: 0, Hi: 1<<32 - 1, Name: "codep0"}
-		s.F[L.utf8Accepted] = fold.K(77)
+		uSet(s, L.utf8SourceP, fold.Iface{V: fold.Sym{Name: "Source", NonNil: true}})
+		uSet(s, L.utf8StateP, fold.K(36))
+		uSet(s, L.utf8CodepP, fold.Int{Lo: 0, Hi: 1<<32 - 1, Name: "codep0"})
+		uSet(s, L.utf8AcceptedP, fold.K(77))
 		recv = mm.NewObj("u", s)
 		el := make([]fold.Val, 4)
 		for i := range el {
@@ -267,11 +267,11 @@ func c07Read(c *Ctx) {
 		return []fold.Val{fold.Ref{O: recv}, mm.NewBytes("p", el)}
 	}, func(mm *fold.Machine, p *fold.Path) {
 		cur.p = p
-		cur.state = fold.Show(mm.Load(fold.Ref{O: recv, Path: []int{L.utf8State}}))
-		if k, ok := mm.Load(fold.Ref{O: recv, Path: []int{L.utf8Codep}}).(fold.Int); ok {
+		cur.state = fold.Show(mm.Load(fold.Ref{O: recv, Path: L.utf8StateP}))
+		if k, ok := mm.Load(fold.Ref{O: recv, Path: L.utf8CodepP}).(fold.Int); ok {
 			cur.codep = k.Name
 		}
-		cur.acc = fold.Show(mm.Load(fold.Ref{O: recv, Path: []int{L.utf8Accepted}}))
+		cur.acc = fold.Show(mm.Load(fold.Ref{O: recv, Path: L.utf8AcceptedP}))
 		out = append(out, cur)
 	})
 	c.R.AddCells(len(paths))
@@ -383,10 +383,10 @@ func c07Read(c *Ctx) {
 			}
 			ps := m2.Explore(f, func(mm *fold.Machine) []fold.Val {
 				s := fold.SymOfType("u", un).(fold.Struct)
-				s.F[L.utf8Source] = fold.Iface{V: fold.Sym{Name: "Source", NonNil: true}}
-				s.F[L.utf8State] = fold.K(36)
-				s.F[L.utf8Codep] = fold.Int{Lo: 0, Hi: 1<<32 - 1, Name: "codep0"}
-				s.F[L.utf8Accepted] = fold.K(0)
+				uSet(s, L.utf8SourceP, fold.Iface{V: fold.Sym{Name: "Source", NonNil: true}})
+				uSet(s, L.utf8StateP, fold.K(36))
+				uSet(s, L.utf8CodepP, fold.Int{Lo: 0, Hi: 1<<32 - 1, Name: "codep0"})
+				uSet(s, L.utf8AcceptedP, fold.K(0))
 				el := make([]fold.Val, nn+3)
 				for i := range el {
 					el[i] = fold.K(0)
@@ -422,7 +422,7 @@ func c07Read(c *Ctx) {
 			st := st
 			ps := m2.Explore(v, func(mm *fold.Machine) []fold.Val {
 				s := fold.SymOfType("u", un).(fold.Struct)
-				s.F[L.utf8State] = fold.K(st)
+				uSet(s, L.utf8StateP, fold.K(st))
 				return []fold.Val{fold.Ref{O: mm.NewObj("u", s)}}
 			}, nil)
 			for _, p := range ps {
